@@ -1,6 +1,7 @@
 package main
 
 import (
+	"bytes"
 	"database/sql/driver"
 	"encoding/base64"
 	"fmt"
@@ -45,7 +46,9 @@ func (s *captureStmt) Exec(args []driver.Value) (driver.Result, error) {
 	}
 	return driver.RowsAffected(1), nil
 }
-func (s *captureStmt) Query(args []driver.Value) (driver.Rows, error) { return nil, fmt.Errorf("no query") }
+func (s *captureStmt) Query(args []driver.Value) (driver.Rows, error) {
+	return nil, fmt.Errorf("no query")
+}
 
 // a cell: MySQL column type -> JDBC code the image builder emits -> Go value kind the scanner yields
 type c08Cell struct {
@@ -234,6 +237,7 @@ func runC08(c *Ctx) {
 	rng := NewRng(c.Seed)
 	nLogs := c.Budget(300, 20000)
 	mgr := base.NewBaseUndoLogManager()
+	var prevTx *types.TransactionContext
 	// JDBC code table dump: what the image builder emits per MySQL type (compared against the cells)
 	for i := 0; i < nLogs; i++ {
 		r := rng.Fork()
@@ -311,6 +315,22 @@ func runC08(c *Ctx) {
 			}
 		})
 		logID := fmt.Sprintf("log%d", i)
+		// the bytes FlushUndoLog handed to the driver must stay what they were when the same configuration
+		// flushes again (another branch, concurrently): a compressor that returns memory it keeps reusing
+		// corrupts the other branch's log
+		if ferr == nil && conn.n > 0 && pn == "" {
+			keep := append([]byte(nil), conn.info...)
+			if prevTx != nil {
+				safeCall(func() { mgr.FlushUndoLog(prevTx, &captureConn{}) }) // another branch's log, same configuration
+			}
+			if !bytes.Equal(conn.info, keep) {
+				c.Out.Case(logID+"-later", "C08", "ctx "+fmt.Sprintf("%s=%s", hx([]byte("k")), hx([]byte("v"))), c08Ctx(map[string]string{"k": "v"}))
+				c.Out.Oracle(logID+"-later", false, "lossless", fmt.Sprintf("the rollback_info bytes of %s (compress type %q) changed when another undo log was flushed: the compressor reuses the memory it returned", logID, comp))
+				c.Out.Tag(logID+"-later", "nontrivial=1")
+			}
+			conn.info = keep
+		}
+		prevTx = tx
 		status := "ok"
 		switch {
 		case pn != "":
